@@ -11,7 +11,7 @@ COMPONENT = "validate"
 
 def collision_program(rng):
     """definitions sharing a scoped name across files, and a definition sharing its scoped name with a module of another file"""
-    kind = rng.choice(["def-def", "def-module", "def-module-deeper", "member-module", "member-module", "reopened-module", "several-collisions", "several-redefinitions", "preprocessor-symbols", "preprocessor-undef"])
+    kind = rng.choice(["def-def", "def-module", "def-module-deeper", "member-module", "member-module", "reopened-module", "same-text-other-module", "same-text-other-module", "several-collisions", "several-redefinitions", "preprocessor-symbols", "preprocessor-undef"])
     if kind == "member-module":
         # a field, enumerator, operation, parameter or return member that shares its scoped name with a module of another file, and doc links that name it
         a = ("module A\ninterface I {\n    /// Like {@link I::op} and {@link op}.\n    op(p: int32) -> (r: bool, q: bool)\n    other()\n}\n"
@@ -20,6 +20,21 @@ def collision_program(rng):
         b = "module A::%s\nstruct Inside {}\n" % path
         c = rng.choice(["module A\n/// From afar: {@link I::op}, {@link A::S::f}, {@link ::A::E::P}.\nstruct Far {}\n", "module Z\n/// {@link A::I::op} {@link A::E::Q} {@link A::I::other}\ncustom Zed\n"])
         return rng.choice([[a, b], [a, b, c], [b, c, a]]), kind + ":" + path.replace("::", ".")
+    if kind == "same-text-other-module":
+        # the same words mean different things in different modules: what is checked for one file says nothing about the other
+        form = rng.choice(["key", "key", "nested-key", "alias-key", "tagged", "optional"])
+        if form in ("key", "nested-key", "alias-key"):
+            use = {"key": "Dictionary<Key, int32>", "nested-key": "Sequence<Dictionary<Key, Sequence<bool>>>", "alias-key": "Dictionary<KeyAlias, string>"}[form]
+            good = "module Good\ncompact struct Key { a: int32 }\ntypealias KeyAlias = Key\nstruct U { d: %s }\ninterface I { op() -> %s }\n" % (use, use)
+            bad = "module Bad\nstruct Key { a: int32 }\ntypealias KeyAlias = Key\nstruct U { d: %s }\n" % use
+        elif form == "tagged":
+            good = "module Good\ntypealias T = int32?\nstruct U { tag(1) a: int32? }\n"
+            bad = "module Bad\nstruct U { tag(1) a: int32 }\n"
+        else:
+            good = "module Good\ncustom Key\nstruct U { d: Dictionary<Key, bool> }\n"
+            bad = "module Bad\nstruct Key {}\nstruct U { d: Dictionary<Key, bool> }\n"
+        third = rng.choice([[], ["module Other\nstruct Far { d: Dictionary<int32, int32> }\n"]])
+        return rng.choice([[good, bad], [bad, good], [good, good.replace("Good", "Good2"), bad]]) + third, kind + ":" + form
     if kind == "several-collisions":
         names = rng.sample(["Alpha", "Bravo", "Charlie", "Delta", "Echo", "Foxtrot"], rng.choice([3, 4, 5]))
         top = "module Top\n" + "\n".join("struct %s {}" % n for n in names) + "\n"
@@ -365,7 +380,7 @@ def run(ck):
             texts.insert(rng.randrange(len(texts) + 1), "// no module" + rng.choice(["", "\n", "\n// nothing here\n", "\n#if NEVER\nmodule Gone\nstruct G {}\n#endif\n", "\n\n\n"]))
         progs.append((texts, fam, mline))
     # runs: the baseline twice (fresh processes), every permutation of up to 4 files (sampled beyond), source/reference assignments
-    lines, index = [], []
+    lines, index, twice = [], [], []
     for pi, pr in enumerate(progs):
         texts, fam = pr[0], pr[1]
         k = len(texts)
@@ -383,6 +398,9 @@ def run(ck):
             files = [(roles[j], names[j], texts[j]) for j in perm]
             lines.append(dc.run_line(False, ["--diagnostic-format", "json"], [("gen-ok-0", None, None)], files))
             index.append((pi, vi, perm, roles))
+        if k >= 2 and rng.random() < 0.25:
+            # a file listed twice, the second time anywhere in the list: one warning about it wherever it stands, everything else as before
+            twice.append((pi, [(rng.randrange(k), pos) for pos in range(k + 1)]))
     o = dc.run_all(lines, chunk=12)
     ck.stream("orders", description="multi-file programs (valid; with one injected rule violation; with a deprecated definition used elsewhere; one struct per file forming containment cycles with tails leading in and finite types leading out; files that declare only a module, files with no module at all; several files of one module using deprecated definitions and broken links at module scope and inside definitions with file-level and element-level allow attributes, base names repeated across directories; definitions sharing a scoped name across files; a definition sharing its scoped "
               "name with a module declared in another file, members (fields, enumerators, operations, parameters) doing so with doc links that name them, several such collisions and redefinitions at once; re-opened modules; preprocessor symbols defined or undefined in one file and tested in another) run through the real binary with a capturing generator: the same command line four times in fresh processes, every permutation of up to 4 files, "
@@ -454,5 +472,37 @@ def run(ck):
                 ck.violation("orders", "warnings-depend-on-order", case, "the same set of warnings", "%s vs %s (order %s roles %s)" % (base_warn[:3], warns[:3], perm, "".join(roles)))
                 break
     ck.samples.append({"stream": "orders", "case": lines[0][:300], "impl": o[0][:300], "model": (mverdicts or ["-"])[0]})
+    # a source listed twice
+    tlines, tmeta = [], []
+    for pi, places in twice:
+        pr = progs[pi]
+        texts = pr[0]
+        names = pr[3] if len(pr) > 3 else ["f%d.slice" % j for j in range(len(texts))]
+        for j, pos in places:
+            order = list(range(len(texts)))
+            order.insert(pos, j)
+            tlines.append(dc.run_line(False, ["--diagnostic-format", "json"], [("gen-ok-0", None, None)], [("S", names[q], texts[q]) for q in order]))
+            tmeta.append((pi, j, pos))
+    ot = dc.run_all(tlines, chunk=12)
+    ck.stream("listed-twice", description="programs of the orders stream with one source listed a second time at every position of the list: the verdict and the warnings of the program plus exactly one DuplicateFile warning naming that file, wherever the repeat stands")
+    base = {}
+    for (pi, j, pos), line, oo in zip(tmeta, tlines, ot):
+        ck.count("listed-twice", line, kind="position %d" % pos)
+        r = dc.parse_run(oo)
+        pr = progs[pi]
+        case = "file %d listed again at position %d\n" % (j, pos) + "\n--\n".join(pr[0])
+        if r is None or r["exit"] not in ("0", "1"):
+            ck.violation("listed-twice", "crash", case, "a verdict", oo[:200])
+            continue
+        ds = dc.json_diags(r["stderr"])
+        dup = [d for d in ds if d.get("error_code") == "DuplicateFile"]
+        rest = sorted((d.get("error_code"), d.get("message"), str(d.get("span"))) for d in ds if d.get("error_code") != "DuplicateFile")
+        key = (pi, j)
+        if len(dup) != 1:
+            ck.violation("listed-twice", "duplicate-not-reported-once", case, "one DuplicateFile warning", "%d; %s" % (len(dup), [d.get("error_code") for d in ds][:8]), signature={"position": "adjacent" if pos in (j, j + 1) else "apart"})
+        if key not in base:
+            base[key] = (r["exit"], rest, case)
+        elif base[key][:2] != (r["exit"], rest):
+            ck.violation("listed-twice", "result-depends-on-where-the-repeat-stands", case, "exit %s, %s" % (base[key][0], base[key][1][:3]), "exit %s, %s" % (r["exit"], rest[:3]), signature={"position": "adjacent" if pos in (j, j + 1) else "apart"})
     scoped_stream(ck)
     ck.extra["rule"] = "%d programs, %d runs of the binary; distinct by program text" % (n, len(lines))
